@@ -190,10 +190,8 @@ func (a *idxAnalysis) run() {
 		switch s := n.(type) {
 		case *ast.AssignStmt:
 			for _, l := range s.Lhs {
-				if id, ok := l.(*ast.Ident); ok {
-					if obj := a.info.ObjectOf(id); obj != nil {
-						a.assigns[obj] = append(a.assigns[obj], s)
-					}
+				if obj := a.varOf(l); obj != nil {
+					a.assigns[obj] = append(a.assigns[obj], s)
 				}
 			}
 		case *ast.ValueSpec:
@@ -216,6 +214,25 @@ func (a *idxAnalysis) run() {
 					a.assigns[obj] = append(a.assigns[obj], s)
 				}
 			}
+		case *ast.CompositeLit:
+			// fields set in a literal of an unexported struct type of this package
+			if tv, ok := a.info.Types[s]; ok {
+				if named, ok := tv.Type.(*types.Named); ok && !named.Obj().Exported() && named.Obj().Pkg() == a.fs.pkg.Types {
+					if st, ok := named.Underlying().(*types.Struct); ok {
+						for _, el := range s.Elts {
+							if kv, ok := el.(*ast.KeyValueExpr); ok {
+								if k, ok := kv.Key.(*ast.Ident); ok {
+									for i := 0; i < st.NumFields(); i++ {
+										if st.Field(i).Name() == k.Name {
+											a.assigns[st.Field(i)] = append(a.assigns[st.Field(i)], kv)
+										}
+									}
+								}
+							}
+						}
+					}
+				}
+			}
 		}
 		return true
 	})
@@ -229,11 +246,7 @@ func (a *idxAnalysis) run() {
 		if !ok {
 			return true
 		}
-		id, ok := ix.X.(*ast.Ident)
-		if !ok {
-			return true
-		}
-		obj := a.info.ObjectOf(id)
+		obj := a.varOf(ix.X)
 		if obj == nil {
 			return true
 		}
@@ -258,11 +271,7 @@ func (a *idxAnalysis) run() {
 		if !ok || len(s.Lhs) != 1 || len(s.Rhs) != 1 {
 			return true
 		}
-		id, ok := s.Lhs[0].(*ast.Ident)
-		if !ok {
-			return true
-		}
-		obj := a.info.ObjectOf(id)
+		obj := a.varOf(s.Lhs[0])
 		if obj == nil {
 			return true
 		}
@@ -273,7 +282,7 @@ func (a *idxAnalysis) run() {
 		sp := ""
 		if call, isCall := s.Rhs[0].(*ast.CallExpr); isCall {
 			if fid, isID := call.Fun.(*ast.Ident); isID && fid.Name == "append" && len(call.Args) == 2 && !call.Ellipsis.IsValid() {
-				if first, isID := call.Args[0].(*ast.Ident); isID && a.info.ObjectOf(first) == obj {
+				if a.varOf(call.Args[0]) == obj {
 					sp = a.idxOf(call.Args[1])
 				}
 			} else if isID && fid.Name == "make" {
@@ -334,6 +343,10 @@ func (a *idxAnalysis) spaceOf(x ast.Expr) string {
 	switch t := x.(type) {
 	case *ast.ParenExpr:
 		return a.spaceOf(t.X)
+	case *ast.SelectorExpr:
+		if obj := a.varOf(t); obj != nil {
+			return a.spaceOfVar(obj)
+		}
 	case *ast.Ident:
 		obj := a.info.ObjectOf(t)
 		if obj == nil {
@@ -532,7 +545,7 @@ func (a *idxAnalysis) computeVarSpace(obj types.Object) string {
 			rhs := a.rhsFor(s, obj)
 			if call, ok := rhs.(*ast.CallExpr); ok {
 				if f, ok := call.Fun.(*ast.Ident); ok && f.Name == "append" && len(call.Args) >= 1 {
-					if id, ok := call.Args[0].(*ast.Ident); ok && a.info.ObjectOf(id) == obj {
+					if a.varOf(call.Args[0]) == obj {
 						appends = append(appends, s)
 						continue
 					}
@@ -552,11 +565,16 @@ func (a *idxAnalysis) computeVarSpace(obj types.Object) string {
 				}
 				inits = append(inits, rhs)
 			}
+		case *ast.KeyValueExpr:
+			inits = append(inits, s.Value)
 		case *ast.RangeStmt:
 			return "" // range value variable holding a collection
 		default:
 			return ""
 		}
+	}
+	if v, isVar := obj.(*types.Var); isVar && v.IsField() && len(inits) == 0 {
+		inits = append(inits, nil) // a field never set in a literal starts empty
 	}
 	if len(inits) != 1 {
 		return ""
@@ -591,6 +609,11 @@ func (a *idxAnalysis) computeVarSpace(obj types.Object) string {
 	}
 	if len(appends) == 0 {
 		return "coll(" + a.localName(obj) + ")"
+	}
+	// a field of a helper struct: several objects share the field, each receives a part of what is appended — always a
+	// filter space, named after the fields that are appended side by side wherever this one is
+	if v, isVar := obj.(*types.Var); isVar && v.IsField() {
+		return a.fieldCoAppendSpace(appends, obj)
 	}
 	// a single conditional append: slices appended side by side in the same block share one filter space
 	if len(appends) == 1 {
@@ -639,7 +662,7 @@ func (a *idxAnalysis) rhsFor(n ast.Node, obj types.Object) ast.Expr {
 	case *ast.AssignStmt:
 		if len(s.Lhs) == len(s.Rhs) {
 			for i, l := range s.Lhs {
-				if id, ok := l.(*ast.Ident); ok && a.info.ObjectOf(id) == obj {
+				if a.varOf(l) == obj {
 					return s.Rhs[i]
 				}
 			}
@@ -773,15 +796,13 @@ func (a *idxAnalysis) idxOf(x ast.Expr) string {
 		}
 		return a.idxOfVar(obj)
 	case *ast.IndexExpr:
-		if id, ok := t.X.(*ast.Ident); ok {
-			if obj := a.info.ObjectOf(id); obj != nil {
-				if _, isMap := obj.Type().Underlying().(*types.Map); isMap {
+		if obj := a.varOf(t.X); obj != nil {
+			if _, isMap := obj.Type().Underlying().(*types.Map); isMap {
+				return a.mapVal[obj]
+			}
+			if sl, isSlice := obj.Type().Underlying().(*types.Slice); isSlice && isIntType(sl.Elem()) {
+				if v, isVar := obj.(*types.Var); isVar && (v.IsField() || (obj.Parent() != nil && obj.Parent() != obj.Pkg().Scope())) {
 					return a.mapVal[obj]
-				}
-				if sl, isSlice := obj.Type().Underlying().(*types.Slice); isSlice && isIntType(sl.Elem()) {
-					if _, isVar := obj.(*types.Var); isVar && obj.Parent() != nil && obj.Parent() != obj.Pkg().Scope() {
-						return a.mapVal[obj]
-					}
 				}
 			}
 		}
@@ -1254,4 +1275,92 @@ func (e *IdxEngine) SparseFills(rel string) []SparseFill {
 		})
 	}
 	return out
+}
+
+// varOf: the variable an expression names — an identifier's object, or, for x.f with x a local variable of (pointer
+// to) a struct type declared in the analysed package, the object of field f. All objects of such a helper type are
+// taken together: a space attributed to the field holds only if every object's field is used alike (conflicting
+// uses make it unknown).
+func (a *idxAnalysis) varOf(e ast.Expr) types.Object {
+	switch t := e.(type) {
+	case *ast.ParenExpr:
+		return a.varOf(t.X)
+	case *ast.Ident:
+		return a.info.ObjectOf(t)
+	case *ast.SelectorExpr:
+		sel, ok := a.info.Selections[t]
+		if !ok || sel.Kind() != types.FieldVal || len(sel.Index()) != 1 {
+			return nil
+		}
+		base, ok := t.X.(*ast.Ident)
+		if !ok {
+			return nil
+		}
+		bo, isVar := a.info.ObjectOf(base).(*types.Var)
+		if !isVar || bo.IsField() || bo.Parent() == nil || bo.Pkg() == nil || bo.Parent() == bo.Pkg().Scope() {
+			return nil
+		}
+		if _, isParam := a.params[bo]; isParam {
+			return nil
+		}
+		rt := sel.Recv()
+		if pt, ok := rt.(*types.Pointer); ok {
+			rt = pt.Elem()
+		}
+		named, ok := rt.(*types.Named)
+		if !ok || named.Obj().Pkg() != bo.Pkg() || named.Obj().Exported() {
+			return nil
+		}
+		return sel.Obj()
+	}
+	return nil
+}
+
+// fieldCoAppendSpace: the filter space of a struct field that is appended to (x.f = append(x.f, v)): the fields that are
+// appended side by side, in the same block, at every one of its appends grow in lock-step and share the space.
+func (a *idxAnalysis) fieldCoAppendSpace(appends []*ast.AssignStmt, obj types.Object) string {
+	own := "filter(" + a.fs.key + ".field:" + obj.Name() + ")"
+	var common string
+	for k, ap := range appends {
+		blk, ok := a.parent[ap].(*ast.BlockStmt)
+		if !ok {
+			return own
+		}
+		set := map[string]bool{}
+		for _, st := range blk.List {
+			as, ok := st.(*ast.AssignStmt)
+			if !ok || len(as.Lhs) != 1 || len(as.Rhs) != 1 {
+				continue
+			}
+			call, ok := as.Rhs[0].(*ast.CallExpr)
+			if !ok || len(call.Args) != 2 || call.Ellipsis.IsValid() {
+				continue
+			}
+			if f, ok := call.Fun.(*ast.Ident); !ok || f.Name != "append" {
+				continue
+			}
+			o := a.varOf(as.Lhs[0])
+			if o == nil || a.varOf(call.Args[0]) != o {
+				continue
+			}
+			if v, isVar := o.(*types.Var); isVar && v.IsField() {
+				set[o.Name()] = true
+			}
+		}
+		var names []string
+		for n := range set {
+			names = append(names, n)
+		}
+		sort.Strings(names)
+		joined := strings.Join(names, "+")
+		if k == 0 {
+			common = joined
+		} else if joined != common {
+			return own
+		}
+	}
+	if common == "" {
+		return own
+	}
+	return "filter(" + a.fs.key + ".fields:" + common + ")"
 }
